@@ -629,7 +629,8 @@ def _inv_obligations(I, s, desc, label):
         obs.append(Obligation("%s/L/%s:%s" % (s.unit.key, label, name), "L", s.pc, z3.And(facts) if facts else z3.BoolVal(True),
                               note="loop invariant: content of list %s" % name))
     if desc.get("formula") is not None:
-        obs.append(Obligation("%s/L/%s:formula" % (s.unit.key, label), "L", s.pc, desc["formula"], note="loop invariant formula"))
+        f = desc["formula"]
+        obs.append(Obligation("%s/L/%s:formula" % (s.unit.key, label), "L", s.pc, f(s) if callable(f) else f, note="loop invariant formula"))
     I.ctx.obligations.extend(obs)
 
 
@@ -650,9 +651,11 @@ def _with_invariant(I, node, st, spec, inv, ordinal):
     s = st.fork()
     dk = inv.at(I, s, k, spec)
     _install(I, s, dk)
+    if dk.get("havoc"):
+        dk["havoc"](s)      # ghost state modified by the loop body: arbitrary, constrained by the invariant
     s.pc.append(z3.And(k >= lo, k < n))
     if dk.get("formula") is not None:
-        s.pc.append(dk["formula"])
+        s.pc.append(dk["formula"](s) if callable(dk["formula"]) else dk["formula"])
     for ax in dk.get("axiom_instances", ()):
         s.pc.append(ax)
     if ctx.feasible(s.pc):
@@ -673,9 +676,11 @@ def _with_invariant(I, node, st, spec, inv, ordinal):
     sA = st.fork()
     dn = inv.at(I, sA, n, spec)
     _install(I, sA, dn)
+    if dn.get("havoc"):
+        dn["havoc"](sA)
     sA.pc.append(n >= lo)
     if dn.get("formula") is not None:
-        sA.pc.append(dn["formula"])
+        sA.pc.append(dn["formula"](sA) if callable(dn["formula"]) else dn["formula"])
     for ax in dn.get("axiom_instances", ()):
         sA.pc.append(ax)
     for t in _target_names(node.target):
